@@ -1,7 +1,11 @@
 package main
 
 import (
+	"fmt"
+	"unicode/utf8"
+
 	"verif/internal/evidence"
+	"verif/internal/hc"
 	"verif/internal/oracle/lexref"
 	"verif/internal/rng"
 	"verif/internal/specgen"
@@ -43,8 +47,46 @@ func checkC08(c *Ctx) error {
 		// statement fixes where the non-greedy rule ends and that greedy rules
 		// keep their longest match, not which of the two gives way
 		skipCase: func(ref *lexref.Result) bool { return ref.NGInterplay },
+		// whatever gives way on such inputs, a token of a non-greedy rule
+		// never runs past the first complete match of its own rule
+		always: ngTokensShortest,
 		nontrivial: func(lc *LCase, in []byte, ref *lexref.Result) bool {
 			return len(ref.Toks) >= 3
 		},
 	})
+}
+
+// ngTokensShortest checks every observed token (up to the first ERROR) whose
+// type is emitted by a non-greedy rule of the default mode: no proper prefix
+// of its text may already match the whole rule.
+func ngTokensShortest(c *Ctx, lc *LCase, in []byte, obs *hc.LexRun) string {
+	rules := lc.Ref.Modes[0].Rules
+	for _, t := range obs.Toks {
+		typ, off, n := t[0], t[1], t[2]
+		if typ == 1 {
+			break
+		}
+		if typ == 0 || off < 0 || off+n > len(in) {
+			continue
+		}
+		for ri := range rules {
+			ru := &rules[ri]
+			if !ru.NonGreedy || ru.Act.Emit != typ {
+				continue
+			}
+			d := ru.Re
+			text := in[off : off+n]
+			for p := 0; p < len(text); {
+				if p > 0 && lc.Ref.Ctx.Nullable(d) {
+					c.Ev.Count("non_greedy_tokens_checked_on_unjudged_inputs", 1)
+					return fmt.Sprintf("token of type %d at %d+%d (%q) comes from a non-greedy rule and runs past the first complete match of that rule (%q)", typ, off, n, text, text[:p])
+				}
+				ch, w := utf8.DecodeRune(text[p:])
+				d = lc.Ref.Ctx.Deriv(d, ch)
+				p += w
+			}
+			c.Ev.Count("non_greedy_tokens_checked_on_unjudged_inputs", 1)
+		}
+	}
+	return ""
 }
